@@ -105,9 +105,10 @@ package s2
 //@   ensures [SI] vcSI(s) && s.status == fresh && !vcHeld(&s.mu)
 
 //@ func NewShapeIndexIterator(index *ShapeIndex, pos ...ShapeIndexIteratorPos) *ShapeIndexIterator
-//@   assumed "iterator construction is verified under C06; here only: returns a fresh iterator and does not change the index"
-//@   requires index != nil
+//@   requires index != nil && len(pos) <= 1 && (len(pos) == 1 ==> index.status == fresh && (pos[0] == IteratorBegin || pos[0] == IteratorEnd))
 //@   ensures result != nil && vcFresh(result) && result.index == index
+//@   ensures [begin] len(pos) == 1 && pos[0] == IteratorBegin ==> vcIterAt(result) && result.position == 0
+//@   ensures [end] len(pos) == 1 && pos[0] == IteratorEnd ==> vcIterAt(result) && result.position == len(index.cells)
 
 //@ func (s *ShapeIndex) Iterator() *ShapeIndexIterator
 //@   requires vcSI(s) && !vcHeld(&s.mu)
